@@ -267,3 +267,17 @@ T("np.take", "mode-clip-negative|(4,)", lambda a: np.take(a, [-1, 2], mode="clip
 T("np.take", "mode-clip-negative,axis1|(2,3)", lambda a: np.take(a, [-2, 1], axis=1, mode="clip"), {"a": I("X", (2, 3))})
 T("np.put", "mode-clip-negative|(4,)", lambda a, v: np.put(a, [-1, 2], v, mode="clip"), {"a": I("X", (4,)), "v": I("X", (2,))}, cls="none", inplace=("a",))
 T("np.take_along_axis", "negative|(2,3)", lambda a, i: np.take_along_axis(a, i - 2, axis=1), {"a": I("X", (2, 3)), "i": I(None, (2, 2), "idx")})
+
+# ---- explicit range= in unyt's flat spelling [xmin, xmax, ymin, ymax] (NumPy's nested spelling on bare data); both
+# coordinates of ONE dimension so that each can be re-expressed on its own -------------------------------------------------
+def _rng(a, b, c, d):
+    return [a, b, c, d] if hasattr(a, "units") else [[a, b], [c, d]]
+
+
+_HR = {"a": I("X", (), "neg"), "b": I("X", (), "pos"), "c": I("X", (), "neg"), "d": I("X", (), "pos")}
+T("np.histogram2d", "range-flat,same-dim|(6,)", lambda x, y, a, b, c, d: np.histogram2d(x, y, bins=2, range=_rng(a * 8, b * 8, c * 8, d * 8)), dict({"x": I("X", (6,)), "y": I("X", (6,))}, **_HR), cls="other")
+T("np.histogramdd", "range-flat,same-dim|(6,)x2", lambda x, y, a, b, c, d: np.histogramdd((x, y), bins=2, range=_rng(a * 8, b * 8, c * 8, d * 8)), dict({"x": I("X", (6,)), "y": I("X", (6,))}, **_HR), cls="other")
+_HR2 = {"a": I("X", (), "neg"), "b": I("X", (), "pos"), "c": I("Y", (), "neg"), "d": I("Y", (), "pos")}
+T("np.histogram2d", "range-flat|(6,)", lambda x, y, a, b, c, d: np.histogram2d(x, y, bins=2, range=_rng(a * 8, b * 8, c * 8, d * 8)), dict({"x": I("X", (6,)), "y": I("Y", (6,))}, **_HR2), cls="other")
+T("np.histogramdd", "range-flat|(6,)x2", lambda x, y, a, b, c, d: np.histogramdd((x, y), bins=2, range=_rng(a * 8, b * 8, c * 8, d * 8)), dict({"x": I("X", (6,)), "y": I("Y", (6,))}, **_HR2), cls="other")
+T("np.histogram", "range-q|(6,)", lambda x, a, b: np.histogram(x, bins=3, range=(a * 8, b * 8)), {"x": I("X", (6,)), "a": I("X", (), "neg"), "b": I("X", (), "pos")}, cls="other")
